@@ -507,7 +507,7 @@ def run_vm(rec, F):
     rec.floor(R, "casts on user-controlled values outside natives", tot, 120)
     for k in PROVENANCE:
         if k not in used:
-            rec.unan(R, "%s/%s" % k, "provenance entry no longer used")
+            rec.unan(R, "%s/%s" % k, "provenance entry no longer used", benign=True)
 
 
 def run_index_discipline(rec, F):
